@@ -2,5 +2,8 @@
 from mc import master, ops, oracles
 from mc.props import _std
 
-_std.install(globals(), 'C04', 'model_checking', [oracles.oracle_alloc], _std.default_bounds(ce=True, big=True),
+B = _std.default_bounds(ce=True, big=True)
+B['thorough'].append(('big', _std.BIG_GEN2))      # allocation of second-generation images with multi-gigabyte files
+
+_std.install(globals(), 'C04', 'model_checking', [oracles.oracle_alloc], B,
              ['allocation map = union of the layout maps of the independent decoders', 'write log recorded by the sink passed to write_fp'] + ['alphabet sigma1 of mc/ops.py and the depth bounds listed in the evidence'])
